@@ -35,13 +35,13 @@ structure Agree (p : SKProvider) (env1 env2 : EvalEnv) : Prop where
   callee : ∀ n, p.queryFunction n = true → isBuiltinName n = false →
     ∃ n', env1.var 0 [n] = .ok (.asmBuiltin n') ∧ env2.var 0 [n] = .ok (.asmBuiltin n')
 
-/-- a name the analysis treats as a known function is neither a local of the provider nor a known variable -/
+/-- a name the analysis treats as a known function is not a known variable -/
 def ProviderOK (p : SKProvider) : Prop :=
-  ∀ n, p.queryFunction n = true → p.local? n = none ∧ p.queryVariable 0 [n] = false
+  ∀ n, p.queryFunction n = true → p.queryVariable 0 [n] = false
 
 /-- the evaluation context holds every local the provider calls known, and none named like a known function -/
 def CtxInv (p : SKProvider) (c : ECtx) : Prop :=
-  (∀ n, p.queryFunction n = true → c.locals.get n = none) ∧
+  (∀ n, p.queryFunction n = true → p.local? n = none → c.locals.get n = none) ∧
   (∀ n l, p.local? n = some l → l.valueKnown = true → (c.locals.get n).isSome = true)
 
 theorem builtinKnown_isBuiltin (n : String) (h : builtinStaticallyKnownValue n = true) : isBuiltinName n = true := by
@@ -57,13 +57,13 @@ theorem builtinKnown_isBuiltin (n : String) (h : builtinStaticallyKnownValue n =
 
 theorem CtxInv.setLocal {p : SKProvider} {c : ECtx} (hp : ProviderOK p) (hi : CtxInv p c) (name : String) (v : Value)
     (hk : staticallyKnown p (.var 0 [name]) = true) : CtxInv p (c.setLocal name v) := by
-  refine ⟨fun n hn => ?_, fun n l hl hv => ?_⟩
+  refine ⟨fun n hn hloc => ?_, fun n l hl hv => ?_⟩
   · have hne : name ≠ n := by
       intro e; subst e
-      obtain ⟨h1, h2⟩ := hp _ hn
-      simp [staticallyKnown, h1, h2] at hk
+      have h2 := hp _ hn
+      simp [staticallyKnown, hloc, h2] at hk
     simp only [ECtx.setLocal]
-    rw [Locals.get_set_ne _ _ _ _ hne]; exact hi.1 n hn
+    rw [Locals.get_set_ne _ _ _ _ hne]; exact hi.1 n hn hloc
   · simp only [ECtx.setLocal]
     by_cases hne : name = n
     · subst hne; rw [Locals.get_set_self]; rfl
@@ -82,7 +82,8 @@ theorem map_ok_snd {α β} (r : Except String α) (g : α → β) (c c' : ECtx) 
   | ok a => simp [Except.map] at h; exact h.2.symm
 
 theorem call_known_inv (p : SKProvider) (f : Expr) (args : List Expr) (h : staticallyKnown p (.call f args) = true) :
-    ∃ n, f = .var 0 [n] ∧ staticallyKnownAll p args = true ∧ (builtinStaticallyKnownValue n || p.queryFunction n) = true := by
+    ∃ n, f = .var 0 [n] ∧ staticallyKnownAll p args = true ∧
+      (builtinStaticallyKnownValue n || ((p.local? n).isNone && p.queryFunction n)) = true := by
   simp only [staticallyKnown] at h
   split at h
   · rename_i names
@@ -98,23 +99,28 @@ theorem call_known_inv (p : SKProvider) (f : Expr) (args : List Expr) (h : stati
 /-- the callee of a known call evaluates, in both environments and without touching the
     context, to the same builtin or asm-builtin function -/
 theorem callee_eval (p : SKProvider) (env1 env2 : EvalEnv) (ag : Agree p env1 env2) (c : ECtx) (n : String)
-    (hkn : (builtinStaticallyKnownValue n || p.queryFunction n) = true) (hinv : CtxInv p c) :
+    (hkn : (builtinStaticallyKnownValue n || ((p.local? n).isNone && p.queryFunction n)) = true) (hinv : CtxInv p c) :
     ∃ fv, eval env1 c (.var 0 [n]) = .ok (fv, c) ∧ eval env2 c (.var 0 [n]) = .ok (fv, c) ∧ fv.shouldPropagate = false ∧
       (fv = .builtin n ∨ ∃ n', fv = .asmBuiltin n') := by
   by_cases hb : isBuiltinName n = true
   · exact ⟨.builtin n, by simp [eval, hb], by simp [eval, hb], rfl, Or.inl rfl⟩
-  · have hq : p.queryFunction n = true := by
+  · have hq : (p.local? n).isNone = true ∧ p.queryFunction n = true := by
       cases h1 : builtinStaticallyKnownValue n with
       | true => exact absurd (builtinKnown_isBuiltin n h1) hb
       | false => simpa [h1] using hkn
-    have hl := hinv.1 n hq
+    have hloc : p.local? n = none := by
+      cases hh : p.local? n with
+      | none => rfl
+      | some l => rw [hh] at hq; cases hq.1
+    have hl := hinv.1 n hq.2 hloc
+    have hq := hq.2
     obtain ⟨n', e1, e2⟩ := ag.callee n hq (by simpa using hb)
     refine ⟨.asmBuiltin n', ?_, ?_, rfl, Or.inr ⟨n', rfl⟩⟩
     · simp [eval, hb, hl, e1, Except.map]
     · simp [eval, hb, hl, e2, Except.map]
 
 theorem call_static (p : SKProvider) (env1 env2 : EvalEnv) (ag : Agree p env1 env2) (c : ECtx) (n : String) (args : List Expr)
-    (hkn : (builtinStaticallyKnownValue n || p.queryFunction n) = true) (hinv : CtxInv p c)
+    (hkn : (builtinStaticallyKnownValue n || ((p.local? n).isNone && p.queryFunction n)) = true) (hinv : CtxInv p c)
     (iha : evalArgs env2 c [] args = evalArgs env1 c [] args ∧ ∀ r c', evalArgs env1 c [] args = .ok (r, c') → CtxInv p c') :
     eval env2 c (.call (.var 0 [n]) args) = eval env1 c (.call (.var 0 [n]) args) ∧
       ∀ v c', eval env1 c (.call (.var 0 [n]) args) = .ok (v, c') → CtxInv p c' := by
@@ -241,23 +247,28 @@ theorem callee_eval' (p : SKProvider) (env1 env2 : EvalEnv)
     (hc : ∀ n, p.queryFunction n = true → isBuiltinName n = false →
       ∃ n', env1.var 0 [n] = .ok (.asmBuiltin n') ∧ env2.var 0 [n] = .ok (.asmBuiltin n'))
     (c : ECtx) (n : String)
-    (hkn : (builtinStaticallyKnownValue n || p.queryFunction n) = true) (hinv : CtxInv p c) :
+    (hkn : (builtinStaticallyKnownValue n || ((p.local? n).isNone && p.queryFunction n)) = true) (hinv : CtxInv p c) :
     ∃ fv, eval env1 c (.var 0 [n]) = .ok (fv, c) ∧ eval env2 c (.var 0 [n]) = .ok (fv, c) ∧ fv.shouldPropagate = false ∧
       (fv = .builtin n ∨ ∃ n', fv = .asmBuiltin n') := by
   by_cases hb : isBuiltinName n = true
   · exact ⟨.builtin n, by simp [eval, hb], by simp [eval, hb], rfl, Or.inl rfl⟩
-  · have hq : p.queryFunction n = true := by
+  · have hq : (p.local? n).isNone = true ∧ p.queryFunction n = true := by
       cases h1 : builtinStaticallyKnownValue n with
       | true => exact absurd (builtinKnown_isBuiltin n h1) hb
       | false => simpa [h1] using hkn
-    have hl := hinv.1 n hq
+    have hloc : p.local? n = none := by
+      cases hh : p.local? n with
+      | none => rfl
+      | some l => rw [hh] at hq; cases hq.1
+    have hl := hinv.1 n hq.2 hloc
+    have hq := hq.2
     obtain ⟨n', e1, e2⟩ := hc n hq (by simpa using hb)
     refine ⟨.asmBuiltin n', ?_, ?_, rfl, Or.inr ⟨n', rfl⟩⟩
     · simp [eval, hb, hl, e1, Except.map]
     · simp [eval, hb, hl, e2, Except.map]
 
 theorem call_static_le (p : SKProvider) (env1 env2 : EvalEnv) (ag : AgreeLe p env1 env2) (c : ECtx) (n : String) (args : List Expr)
-    (hkn : (builtinStaticallyKnownValue n || p.queryFunction n) = true) (hinv : CtxInv p c)
+    (hkn : (builtinStaticallyKnownValue n || ((p.local? n).isNone && p.queryFunction n)) = true) (hinv : CtxInv p c)
     (iha : ∀ r c', evalArgs env1 c [] args = .ok (r, c') → (∀ u, r = .inl u → u.isUnk = false) →
       evalArgs env2 c [] args = .ok (r, c') ∧ CtxInv p c')
     (v : Value) (c' : ECtx) (hev : eval env1 c (.call (.var 0 [n]) args) = .ok (v, c')) (hne : v.isUnk = false) :
